@@ -80,9 +80,15 @@ QuartersOf(t) ==
 \* Exact keys always win; a proper prefix designates an argument iff abbreviations are enabled
 \* and exactly one long key starts with it.
 NArgs(cfg) == Len(cfg.args)
+\* the handler flag hfEndValues defines the standard argument --endvalues (index NArgs+1 in lookups): it ends the
+\* value list of a multi-value argument and takes part in key matching like any other long key
+EndValuesKey == <<101, 110, 100, 118, 97, 108, 117, 101, 115>>
+EndValuesIdx(cfg) == NArgs(cfg) + 1
+LongIdx(cfg) == IF cfg.endvalues THEN 1..(NArgs(cfg) + 1) ELSE 1..NArgs(cfg)
+LongKeyOf(cfg, a) == IF a <= NArgs(cfg) THEN cfg.args[a].l ELSE EndValuesKey
 ShortMatches(cfg, c) == {a \in 1..NArgs(cfg) : cfg.args[a].s = c}
-ExactLong(cfg, w) == {a \in 1..NArgs(cfg) : cfg.args[a].l = w}
-PrefixLong(cfg, w) == {a \in 1..NArgs(cfg) : Len(cfg.args[a].l) > 0 /\ IsPrefixOf(w, cfg.args[a].l)}
+ExactLong(cfg, w) == {a \in LongIdx(cfg) : LongKeyOf(cfg, a) = w}
+PrefixLong(cfg, w) == {a \in LongIdx(cfg) : Len(LongKeyOf(cfg, a)) > 0 /\ IsPrefixOf(w, LongKeyOf(cfg, a))}
 \* result: a > 0 argument index, 0 unknown, -1 ambiguous
 LookupShort(cfg, c) == IF ShortMatches(cfg, c) = {} THEN 0 ELSE CHOOSE a \in ShortMatches(cfg, c) : TRUE
 LookupLong(cfg, w) ==
@@ -140,6 +146,14 @@ CheckOK(ch, raw) ==
      [] ch.k = "maxlen" -> Len(raw) <= ch.a
      [] OTHER -> TRUE
 ChecksOK(arg, raw) == \A k \in 1..Len(arg.checks) : CheckOK(arg.checks[k], raw)
+\* the same checks applied to a number (level counter: the incremented level is checked before it is stored)
+NumCheckOK(ch, n) ==
+   CASE ch.k = "lower"  -> n >= ch.a
+     [] ch.k = "upper"  -> n < ch.a
+     [] ch.k = "range"  -> n >= ch.a /\ n < ch.b
+     [] ch.k = "values" -> \E k \in 1..Len(ch.vals) : IsIntText(ch.vals[k]) /\ StripZeros(ch.vals[k]) = ch.vals[k] /\ IntOf(ch.vals[k]) = n
+     [] OTHER -> TRUE
+NumChecksOK(arg, n) == \A k \in 1..Len(arg.checks) : NumCheckOK(arg.checks[k], n)
 RECURSIVE Formatted(_, _, _)
 Formatted(fs, k, t) == IF k > Len(fs) THEN t
                        ELSE Formatted(fs, k + 1, IF fs[k] = "upper" THEN ToUpper(t) ELSE IF fs[k] = "lower" THEN ToLower(t) ELSE t)
@@ -148,7 +162,7 @@ Formatted(fs, k, t) == IF k > Len(fs) THEN t
 \*   set: ordered, unique        mset: ordered, duplicates kept        pq: priority_queue (pop order: descending)
 \*   arr3/sarr3: int[3] / std::array<int,3>, filled from index 0, refuse a 4th element
 \*   tup: std::tuple<int,string,int>, exactly three values     bits8: std::bitset<8>, values are bit positions
-IntKinds == {"int", "optint", "vecint", "setint", "listint", "dequeint", "arr3", "sarr3", "fwdint", "msetint",
+IntKinds == {"int", "optint", "level", "vecint", "setint", "listint", "dequeint", "arr3", "sarr3", "fwdint", "msetint",
              "stackint", "queueint", "pqint", "bits8"}
 ContKinds == {"vecint", "vecstr", "setint", "listint", "dequeint", "arr3", "sarr3", "fwdint", "msetint",
               "stackint", "queueint", "pqint", "tup", "bits8"}
@@ -223,7 +237,7 @@ WithCursor(st, e) == [st EXCEPT !.i = e.i, !.pos = e.pos, !.nval = e.nval, !.das
 \* default cardinality: at most one use for scalars, exactly three values for the tuple, none for containers
 EffCard(arg) == IF arg.card.t # "dflt" THEN arg.card
                 ELSE IF arg.kind = "tup" THEN [t |-> "exact", a |-> 3, b |-> 0]
-                ELSE IF IsContainer(arg.kind) THEN [t |-> "none", a |-> 0, b |-> 0]
+                ELSE IF IsContainer(arg.kind) \/ arg.kind = "level" THEN [t |-> "none", a |-> 0, b |-> 0]
                 ELSE [t |-> "max", a |-> 1, b |-> 0]
 CardMax(card) == CASE card.t = "max" -> card.a [] card.t = "exact" -> card.a
                    [] card.t = "range" -> card.b [] OTHER -> -1
@@ -237,6 +251,20 @@ AssignTo(cfg, st, a, hasv, v, count) ==
    ELSE IF count /\ HasCard(arg) /\ CardMax(EffCard(arg)) >= 0 /\ c1 > CardMax(EffCard(arg)) THEN Fail(st)
    ELSE IF arg.kind = "flag" THEN
         [st EXCEPT !.dest[a] = IF arg.unset THEN FALSE ELSE ~arg.init, !.has[a] = TRUE, !.cnt[a] = c1]
+   ELSE IF arg.kind = "level" THEN
+        \* level counter: without value the level is incremented, with a value it is set; mixing both (or
+        \* setting twice) is refused unless allowed.  filled[a]: 1 = incremented, 2 = set, 3 = both
+        LET inc == st.filled[a] \in {1, 3}
+            set == st.filled[a] \in {2, 3} IN
+        IF ~hasv THEN
+           (IF set /\ ~arg.mix THEN Fail(st)
+            ELSE IF ~NumChecksOK(arg, st.dest[a] + 1) THEN Fail(st)
+            ELSE [st EXCEPT !.dest[a] = st.dest[a] + 1, !.has[a] = TRUE, !.cnt[a] = c1, !.filled[a] = IF set THEN 3 ELSE 1])
+        ELSE
+           (IF ~arg.mix /\ (set \/ inc) THEN Fail(st)
+            ELSE LET r == ConvElem(arg, v) IN
+                 IF ~r.ok THEN Fail(st)
+                 ELSE [st EXCEPT !.dest[a] = r.v, !.has[a] = TRUE, !.cnt[a] = c1, !.filled[a] = IF inc THEN 3 ELSE 2])
    ELSE IF ~IsContainer(arg.kind) THEN
         LET r == ConvElem(arg, v) IN
         IF ~r.ok THEN Fail(st)
@@ -323,6 +351,9 @@ StepWords(cfg, words, st, fromCmd) ==
           LET a == IF e.t = "short" THEN LookupShort(cfg, e.c) ELSE LookupLong(cfg, e.w)
               s1 == WithCursor(st, e) IN
           IF a <= 0 THEN Fail(st)
+          ELSE IF a = EndValuesIdx(cfg) THEN
+               \* --endvalues: takes no value; the next free value no longer belongs to the last argument
+               (IF s1.nval THEN [s1 EXCEPT !.last = 0] ELSE [s1 EXCEPT !.last = 0])
           ELSE IF cfg.args[a].pos THEN Fail(st)
           ELSE LET arg == cfg.args[a]
                    s2 == [s1 EXCEPT !.last = a] IN
